@@ -52,6 +52,8 @@ def run(ctx, rep, tier):
     rep.rule("JX", "parallel movable-cell index advances exactly once per movable cell", 2)
     rep.rule("SK", "row lookups by binary search use the key the rows are sorted by", 2)
     rep.rule("DS", "free-space / geometry queries keep no stale derived state (with positive control)", 2)
+    rep.rule("RS", "the row sweeps of the legalizers reach every row (upwards to the last row, downwards to row 0)", 4)
+    rep.rule("IE", "Tetris only emits the intersection of two free intervals when it is non-empty", 1)
     rep.rule("TC", "Tetris marks every row strip a multi-row cell covers (recursion / strip loop reaches the topmost strip)", 1)
     rep.rule("OF", "orientation frame of the legalizer's cell sizes: producer (fromIspdCircuit) and consumers (width/height exchanges) agree", 2)
     c10.check_p1(ctx, rep)
@@ -69,6 +71,8 @@ def run(ctx, rep, tier):
     check_tb(ctx, rep)
     check_orientation_frame(ctx, rep)
     check_strip_coverage(ctx, rep)
+    check_row_sweeps(ctx, rep)
+    check_interval_emission(ctx, rep)
     from . import c15
     c15.check_g12(ctx, c02_relabel(rep, "FS"))
     c15.check_g13(ctx, c02_relabel(rep, "FS"))
@@ -93,11 +97,9 @@ def run(ctx, rep, tier):
         def violation(self, rid, node, func, what, reason, key=None):
             Sink.v.append((rid, func.short if func is not None else "", reason))
 
-    class CCtx:
-        prog = ctl
-        eff = Effects(ctl)
+    from ..core import SubCtx
     Sink.v = []
-    check_derived_state(CCtx(), Sink(), "DS", ctl)
+    check_derived_state(SubCtx(ctl, Effects(ctl)), Sink(), "DS", ctl)
     if any("setScale" in f for _r, f, _w in Sink.v) and not any("setValues" in f for _r, f, _w in Sink.v):
         rep.holds("DS", "selftest/c01_controls.cpp", None, "positive control: the missing invalidation in Store::setScale is reported")
     else:
@@ -540,7 +542,9 @@ def check_jx(ctx, rep):
                           key="%s|counter increments" % f.short)
             continue
         jn = g.node_for(incs[0])
-        edges = [(canon(a), v) for a, v, _e in g.dom_edges(jn) if "nbCells" not in pretty(canon(a))]
+        from .common import subst_counts
+        edges = [(subst_counts(canon(a), f.unit), v) for a, v, _e in g.dom_edges(jn)]
+        edges = [(c, v) for c, v in edges if "nbCells" not in pretty(c)]
         cname = canon(incs[0])[2][2]
         fixed_only = all((is_fixed_test(c) and v is False) or ("nbCells" in pretty(c)) or (c[0] == "bin" and c[1] in (">=", "<") and cname in pretty(c)) for c, v in edges)
         # every path from the not-fixed edge to the loop increment passes the counter increment
@@ -557,7 +561,7 @@ def check_jx(ctx, rep):
     pushes = {}
     g = cfg_of(f)
     for x in walk(f.body):
-        if x.get("kind") == "CXXMemberCallExpr" and callee_info(x)["name"] == "push_back":
+        if x.get("kind") == "CXXMemberCallExpr" and callee_info(x)["name"] in ("push_back", "emplace_back"):
             oc = canon(callee_info(x)["obj"])
             if oc[0] == "var":
                 pushes.setdefault(oc[2], []).append(x)
@@ -575,3 +579,137 @@ def check_jx(ctx, rep):
                           key="Legalizer::fromIspdCircuit|vectors out of step")
     else:
         rep.unknown("JX", f.decl, f, "model vectors", "expected one push into each of %s" % vecs)
+
+
+def check_row_sweeps(ctx, rep):
+    """RS. AbacusLegalizer::placeCell and TetrisLegalizer::placeCell look for a row in two sweeps that call the same local
+    evaluation with the sweep index: upwards from the closest row, downwards from the row below it. A feasible cell is placed
+    only if the sweeps can reach every row: the upward loop runs while index < nbRows(), the downward one while index >= 0."""
+    prog = ctx.prog
+    for q in ("AbacusLegalizer::placeCell", "TetrisLegalizer::placeCell"):
+        fs = prog.func(CQ + q, required=False) or []
+        if not fs:
+            rep.unknown("RS", None, None, q, "not found")
+            continue
+        f = fs[0]
+        n = 0
+        for x in walk(f.body):
+            if x.get("kind") != "ForStmt":
+                continue
+            li = for_loop_info(x)
+            if not li or li["step"] not in (1, -1):
+                continue
+            # the loop must hand its index to a local lambda (the row evaluation)
+            calls = [y for y in walk(li["body"]) if y.get("kind") == "CXXOperatorCallExpr" and callee_info(y)["name"] == "operator()"
+                     and any(li["var"] in list(subterms(canon(a_))) or canon(a_) == li["var"] for a_ in callee_info(y)["args"])]
+            if not calls:
+                continue
+            n += 1
+            c = li["cond"]
+            # a stop flag folded into the loop condition (`!canStop && row < nbRows()`): judge the atom that mentions the index
+            if c[0] == "bin" and c[1] == "&&":
+                atoms = []
+
+                def flat(t):
+                    if t[0] == "bin" and t[1] == "&&":
+                        flat(t[2]); flat(t[3])
+                    else:
+                        atoms.append(t)
+                flat(c)
+                mine = [t for t in atoms if any(u == li["var"] for u in subterms(t))]
+                if len(mine) == 1:
+                    c = mine[0]
+                    if c[0] == "bin" and c[1] in ("<", "!=") and c[2] == li["var"]:
+                        li = dict(li, hi=c[3])
+            what = "%s: %s sweep `%s`" % (f.short, "upward" if li["step"] == 1 else "downward", pretty(c))
+            hi0 = li["hi"]
+            if li["step"] == 1 and hi0 is not None and hi0[0] == "call" and hi0[1] in ("rend", "crend") and len(hi0) == 3 and \
+                    hi0[2][0] == "field" and hi0[2][1].endswith("::rows_"):
+                rep.holds("RS", x, f, what, "reverse iteration down to the first row")
+                continue
+            if li["step"] == 1 and hi0 is not None and hi0[0] == "call" and hi0[1] in ("end", "cend") and len(hi0) == 3 and \
+                    hi0[2][0] == "field" and hi0[2][1].endswith("::rows_"):
+                rep.holds("RS", x, f, what, "iteration up to the last row")
+                continue
+            if li["step"] == 1:
+                hi = li["hi"]
+                full = hi is not None and ((hi[0] == "call" and hi[1] == CQ + "LegalizerBase::nbRows") or
+                                           (hi[0] == "call" and hi[1] == "size" and len(hi) == 3 and hi[2][0] == "field" and hi[2][1].endswith("::rows_")))
+                if full:
+                    rep.holds("RS", x, f, what, "reaches the last row")
+                elif hi is not None and hi[0] == "bin" and hi[1] == "-" and hi[3][0] == "lit":
+                    rep.violation("RS", x, f, what, "stops before the last row: a cell that only fits there is reported as unplaceable",
+                                  key="%s|upward sweep misses rows" % f.short)
+                else:
+                    rep.unknown("RS", x, f, what, "upper bound not recognised as the number of rows")
+            else:
+                v = li["var"]
+                m1 = (("un", "-", ("lit", "1")), ("lit", "-1"))
+                ok = c in (("bin", ">=", v, ("lit", "0")), ("bin", "<=", ("lit", "0"), v)) or \
+                    (c[0] == "bin" and c[1] in (">", "!=") and c[2] == v and c[3] in m1) or (c[0] == "bin" and c[1] == "<" and c[3] == v and c[2] in m1)
+                short_ = c[0] == "bin" and ((c[1] == ">" and c[2] == v and c[3][0] == "lit" and str(c[3][1]) != "-1") or
+                                            (c[1] == ">=" and c[2] == v and c[3][0] == "lit" and str(c[3][1]) not in ("0",)))
+                if ok:
+                    rep.holds("RS", x, f, what, "reaches row 0")
+                elif short_:
+                    rep.violation("RS", x, f, what, "never visits the lowest row(s): a cell that only fits in row 0 is reported as unplaceable although "
+                                  "a legal placement exists", key="%s|downward sweep misses row 0" % f.short)
+                else:
+                    rep.unknown("RS", x, f, what, "lower bound not recognised")
+        if n == 0:
+            rep.unknown("RS", f.decl, f, "row sweeps of %s" % q, "no index loop calling a local evaluation found (shape changed)")
+
+
+def check_interval_emission(ctx, rep):
+    from .common import binding_source
+    """IE. TetrisLegalizer::getPossibleIntervals intersects the free x-intervals [b1, e1] of one row with those [b2, e2] of the rows
+    above and emits [max(b1, b2), min(e1, e2)]. The emitted interval must be non-empty: min(e1, e2) >= max(b1, b2) has to follow
+    from the conditions that dominate the emission (each input interval is non-empty by construction: hypothesis b <= e).
+    An inverted interval makes std::clamp return a position that is free on one of the rows only."""
+    from ..order import Facts, Prover
+    prog = ctx.prog
+    fs = prog.func(CQ + "TetrisLegalizer::getPossibleIntervals", required=False) or []
+    if not fs:
+        rep.unknown("IE", None, None, "getPossibleIntervals", "not found")
+        return
+    f = fs[0]
+    n = 0
+    for x in walk(f.body):
+        if x.get("kind") != "CXXMemberCallExpr" or callee_info(x)["name"] not in ("emplace_back", "push_back"):
+            continue
+        a = [canon(y) for y in callee_info(x)["args"]]
+        if len(a) == 1 and a[0][0] in ("construct", "call", "initlist") and len(a[0]) >= 4:
+            a = [t for t in a[0][2:] if isinstance(t, tuple)][-2:]
+        if len(a) != 2:
+            continue
+        lo, hi = a
+        if not (lo[0] == "call" and lo[1] == "max" and hi[0] == "call" and hi[1] == "min"):
+            continue
+        n += 1
+        F = Facts()
+        for gc, val, _a, _b in (ctx.guards(f, x) or []):
+            F.add_cond(gc, val)
+        # each input interval is a (begin, end) pair bound from a list of non-empty intervals: begin <= end
+        los = [t for t in lo[3:]]
+        his = [t for t in hi[3:]]
+        for b_ in los:
+            for e_ in his:
+                bs1 = binding_source(f, b_[1]) if b_[0] == "var" else None
+                bs2 = binding_source(f, e_[1]) if e_[0] == "var" else None
+                if bs1 and bs2 and bs1[2] is bs2[2] and bs1[1] == 0 and bs2[1] == 1:
+                    F.add(e_, ">=", b_)
+        P = Prover(F, orthant=False)
+        what = "emitted interval [%s, %s]" % (pretty(lo), pretty(hi))
+        if P.prove_ge(hi, lo):
+            rep.holds("IE", x, f, what, "non-empty by the dominating conditions")
+        else:
+            cm = P.countermodel(hi, lo)
+            if cm is not None:
+                env, va, vb = cm
+                rep.violation("IE", x, f, what, "can be inverted (end %s < begin %s, e.g. %s): the conditions under which it is emitted do not make "
+                              "the two intervals meet" % (va, vb, ", ".join("%s=%s" % kv for kv in sorted(env.items())[:6])),
+                              key="TetrisLegalizer::getPossibleIntervals|empty intersection emitted")
+            else:
+                rep.unknown("IE", x, f, what, "neither provable nor refutable")
+    if n == 0:
+        rep.unknown("IE", f.decl, f, "intersection of intervals", "no [max(b1, b2), min(e1, e2)] emission found (shape changed)")
